@@ -22,7 +22,8 @@ CHECKS = {"C03"}
 
 
 def floors(ctx):
-    f = {"evaluations": 20000 if ctx.tier == "quick" else 200000, "histories": 1000, "ops_raised": 100, "bursts": 500}
+    f = {"evaluations": 20000 if ctx.tier == "quick" else 200000, "histories": 1000, "ops_raised": 100, "bursts": 500,
+         "scripted_dontdup_histories": 30}
     for k in ("op:setv1:loop:new=third", "op:setv2:plain:new=other", "op:setv1:plain:new=old", "op:setv2:half:new=third",
               "op:setv1:plain:new=None", "op:unlink:pair:joined2:keep", "op:unlink:self:joined1:destroy",
               "op:link:pair:joined1:dontdup", "op:link:self:joined1:dontdup", "op:link:pair:joined0:dontdup",
@@ -38,10 +39,37 @@ def nontrivial_ops(before, after):
     return any(v > before.get(k, 0) and any(x in k for x in keys) for k, v in after.items())
 
 
+def scripted():
+    """
+    link_*(a, b, dontdup=True) only ever needs to look at a's links: b may carry anything (an n-ended link, a
+    degenerate edge) and more or fewer links than a - the joining links and the returned one are the same.
+    """
+    out = []
+    for fn, cname in (("from_to", "DirectedEdge"), ("from_to", "USub"), ("directed", "DirectedEdge"), ("undirected", "UnDirectedEdge")):
+        for extra_on_b in ([["mkl", "M0", ["V1", "V2"], "list"]], [["mkl", "M0", ["V1"], "tuple"]],
+                           [["mke", "E9", "DirectedEdge", "V1", None]], []):
+            for more_on_a in (0, 2):
+                ops = [["mkv", "V0", "Vertex", [], []], ["mkv", "V1", "VSub", [], []], ["mkv", "V2", "Vertex", [], []],
+                       ["mke", "E0", "DirectedEdge", "V0", "V1"], ["mke", "E1", "UnDirectedEdge", "V1", "V0"]]
+                ops += [["mke", f"E{2 + k}", "DSub", "V0", "V2"] for k in range(more_on_a)]
+                ops += extra_on_b
+                ops += [["link", fn, "V0", cname, "V1", True, "X0"], ["link", fn, "V0", cname, "V2", True, "X1"],
+                        ["link", fn, "V2", cname, "V1", True, "X2"], ["link", fn, "V0", cname, "V1", True, "X3"]]
+                out.append(ops)
+    return out
+
+
 def run(ctx):
     quick = ctx.tier == "quick"
     c01.run(ctx, profile="C03", checks=CHECKS, strict=True, depth=2, nrand=1500 if quick else 6000,
             nontrivial=nontrivial_ops)
+    if ctx.shard == 0:
+        for ops in scripted():
+            eng = histories.replay(ops, CHECKS, True)
+            ctx.evaluated(max(1, eng.evals))
+            ctx.count("scripted_dontdup_histories")
+            if eng.findings:
+                histories.report(ctx, eng, CHECKS, True)
     ctx.assumptions[:] = [
         "reference model written from the property statement and docstrings (egverif/model.py)",
         "ops whose effect the documentation leaves open are never issued in this profile (C01 covers them model-free)",
